@@ -1,4 +1,5 @@
 import Apko.Proofs.Lemmas.AccountsExt
+import Apko.Proofs.Lemmas.AccountsOpen
 /-! The recursive `directory` mutation: every path the walk visits ends with the declared
 permission bits and owner (the callbacks all set the same values, and change nothing else). -/
 namespace Apko.Accounts
@@ -213,5 +214,75 @@ theorem ext_link {fs : FS} (pi t : Ino) (b : Name) (hd : (fs.node pi).dir = true
       simp only [if_true]; rw [lookup_setChild_ne _ _ _ _ hnb]; exact hl
     · simp only [hdp, if_false]; exact hl
   · simp only [FS.lookup, (hnode pi).2.2.2, if_true]; exact lookup_setChild_self _ _ _
+
+/-- the graph invariant together with "mode bit 31 only on directories" -/
+def WF (fs : FS) : Prop := FS.Inv fs ∧ DirBit fs
+
+theorem wf_openCore (c : Cfg) (fs : FS) (p : Text) (flag perm : Nat) (hperm : perm.testBit 31 = false)
+    (h : WF fs) : WF (openCore c fs p flag perm).1 :=
+  ⟨openCore_inv c fs p flag perm h.1, openCore_dirBit c fs p flag perm hperm h.2⟩
+
+theorem wf_readOrCreate (c : Cfg) (fs : FS) (p : Text) (h : WF fs) : WF (readOrCreate c fs p).1 := by
+  unfold readOrCreate
+  have := wf_openCore c fs p flagsReadOrCreate readOrCreatePerm (by decide) h
+  split <;> (rename_i heq; simp only [heq] at this; exact this)
+
+theorem wf_writeBack (c : Cfg) (fs : FS) (p t : Text) (h : WF fs) : WF (writeBack c fs p t).1 := by
+  refine ⟨inv_act c fs _ h.1 (by intro p q h; cases h), ?_⟩
+  simp only [writeBack, act, step]
+  have := openCore_dirBit c fs p flagsWriteFile createPerm (by decide) h.2
+  split
+  · rename_i heq; simp only [heq] at this; exact this
+  · rename_i heq; simp only [heq] at this; exact dirBit_setNode this _ _ rfl rfl
+
+theorem wf_homeStep (c : Cfg) (fs : FS) (u : User) (h : WF fs) : WF (homeStep c fs u).1 := by
+  unfold homeStep
+  split
+  · exact h
+  · simp only []
+    split
+    · split <;> exact h
+    · -- MkdirAll, Mkdir, Chown
+      have h1 : WF (act c fs (.mkdirAll (dir (clean u.home)) homeParentPerm)).1 :=
+        ⟨mkdirAll_inv c fs _ _ h.1, mkdirAll_dirBit c fs _ _ h.1 h.2⟩
+      have hmk : ∀ x : FS, WF x → WF (act c x (.mkdir (clean u.home) homePerm)).1 := by
+        intro x hx
+        refine ⟨inv_step c x _ hx.1 hx.2, ?_⟩
+        simp only [act, step]
+        repeat' split
+        all_goals (try exact hx.2)
+        exact dirBit_create hx.2 _ _ _ (hx.2 _ (by simp_all)) (by intro _; rfl)
+      have hch : ∀ x : FS, WF x → WF (act c x (.chown (clean u.home) u.uid u.gid)).1 := by
+        intro x hx
+        refine ⟨inv_act c x _ hx.1 (by intro p q h; cases h), ?_⟩
+        simp only [act, step]
+        split
+        · exact hx.2
+        · exact dirBit_setNode hx.2 _ _ rfl rfl
+      show WF (liftE _).1
+      simp only [liftE]
+      generalize act c fs (.mkdirAll (dir (clean u.home)) homeParentPerm) = r1 at h1
+      rcases r1 with ⟨f1, _ | e⟩
+      · simp only [andThen]
+        have h2 := hmk f1 h1
+        generalize act c f1 (.mkdir (clean u.home) homePerm) = r2 at h2
+        rcases r2 with ⟨f2, _ | e⟩
+        · exact hch f2 h2
+        · exact h2
+      · exact h1
+    · exact h
+    · exact h
+
+theorem wf_seqM_home (c : Cfg) (us : List User) : ∀ fs, WF fs → WF (seqM (homeStep c) fs us).1 := by
+  induction us with
+  | nil => intro fs h; exact h
+  | cons u rest ih =>
+    intro fs h
+    rw [seqM_cons]
+    have h1 := wf_homeStep c fs u h
+    generalize homeStep c fs u = r at h1
+    rcases r with ⟨f1, _ | e⟩
+    · exact ih f1 h1
+    · exact h1
 
 end Apko.Accounts
